@@ -97,6 +97,20 @@ def oracle_spelling(spec):
         back = call(M.note_name_to_pitch_spelling, "%s%s%d" % (n.step, sign, octave))
         if tuple(back) != (step.upper(), alter or 0, octave):
             o.add("alter-sign-name-not-read-back", alter=alter, sign=sign, back=list(back))
+    # the MIDI pitch of a Note follows its spelling: the library respells notes in place (utils.music.transpose assigns
+    # step, alter and octave of existing notes), so a value read before must not survive a change of any one field
+    o.cls("note-respelled-in-place")
+    cur = {"step": step.upper(), "alter": alter, "octave": octave}
+    si = STEPS.index(step.upper())
+    for field, value in (("alter", (alter or 0) + 1 if (alter or 0) < 3 else (alter or 0) - 1), ("octave", octave + 1 if octave < 9 else octave - 1),
+                         ("alter", None), ("step", STEPS[(si + 3) % 7]), ("alter", -1), ("alter", 1), ("octave", octave)):
+        setattr(n, field, value)
+        cur[field] = value
+        exp2 = 12 * (cur["octave"] + 1) + BASE[cur["step"]] + (cur["alter"] or 0)
+        got2 = call(lambda: n.midi_pitch)
+        if got2 != exp2:
+            o.add("note-midi-pitch-stale-after-respelling", changed=field, spelling=[cur["step"], cur["alter"], cur["octave"]], got=int(got2), expected=exp2)
+            break
     if step.isupper() and alter is not None:
         pc = call(M.step2pc, a_step, a_alter)
         if pc != exp % 12:
@@ -920,7 +934,7 @@ def oracle_freq(spec):
 
 
 SUBCHECKS = [
-    SubCheck("spelling_to_midi", oracle_spelling, enumerate=enum_spelling, shards=2, floors={'form:np': 0.4, 'note-lower-case-step': 0.4, 'alter-sign-read-back': 0.8, 'note-default-alter': 0.1}, rule="all steps x alter None,-3..3 x octave -1..9 x letter case x (Python / numpy scalars); Note, its default alter and its accidental sign; non-trivial = altered"),
+    SubCheck("spelling_to_midi", oracle_spelling, enumerate=enum_spelling, shards=2, floors={'form:np': 0.4, 'note-respelled-in-place': 0.9, 'note-lower-case-step': 0.4, 'alter-sign-read-back': 0.8, 'note-default-alter': 0.1}, rule="all steps x alter None,-3..3 x octave -1..9 x letter case x (Python / numpy scalars); Note, its default alter, its accidental sign and its MIDI pitch after each of seven in-place respellings (one field at a time); non-trivial = altered"),
     SubCheck(
         "spelling_format",
         oracle_format,
